@@ -1,11 +1,16 @@
 #!/bin/bash
-# setup_cmd: build the static Coq development (full .vo), then the lint gate.
-set -e
-cd "$(dirname "$0")/coq"
-{ echo "-Q . FJ"; echo "-arg -w -arg -notation-overridden,-deprecated-hint-without-locality,-deprecated-instance-without-locality"; find Lib Spec Model Proofs Properties -name '*.v' | sort; } > _CoqProject
-coq_makefile -f _CoqProject -o Makefile > /dev/null
-timeout 7200 make -j16 2>&1 | grep -v '^COQDEP\|^CLEAN\|WARNING: overwriting' | tail -n 40
-test "${PIPESTATUS[0]}" = 0
+# setup_cmd: build the static Coq development (full .vo, never -vos), then the lint gate.
+# Generated files (coq/Gen) are produced and compiled by the checks themselves.
+cd "$(dirname "$0")"
+export PYTHONPATH="$(pwd)/harness" PYTHONHASHSEED=0 PYTHONDONTWRITEBYTECODE=1
+/venv/bin/python -c "from fjverif import framework as fw; fw.ensure_makefile()" || exit 2
+cd coq
+# -k: a file that does not compile must not hide the others; every check re-makes its own targets and
+# reports a failure there as a broken proof obligation of that property.
+timeout 7200 make -k -j16 2>&1 | grep -v '^COQDEP\|^CLEAN\|WARNING: overwriting' | tail -n 60
+rc=${PIPESTATUS[0]}
 cd ..
-./lint.sh
+./lint.sh || exit 2
+if [ "$rc" != 0 ]; then echo "setup: some Coq targets failed to build (see above); the affected checks will report it"; fi
+test -f coq/Spec/MachineSpec.vo || exit 2
 echo "setup ok"
